@@ -37,21 +37,16 @@ theorem isQuotedBody_wrap (s : Bytes) (h : ∀ b ∈ s, b ≠ 34) : isQuotedBody
     name / quoted-name / id token body of the lexer. -/
 theorem nameBody_is_token (n : Bytes) (hne : n ≠ []) : isIdentBody (nameBody n) = true := by
   unfold nameBody isIdentBody
-  cases hu : parseUint64 n with
-  | some v =>
+  cases hu : allDigits n with
+  | true =>
     have hd : n.all isDigit = true := by
-      unfold parseUint64 at hu
-      by_cases h1 : n.isEmpty = true
-      · simp [h1] at hu
-      · by_cases h2 : n.all isDigit = true
-        · exact h2
-        · simp [h1, h2] at hu
-    simp only
+      simp only [allDigits, Bool.and_eq_true] at hu; exact hu.2
+    simp only [if_true]
     rw [isQuotedBody_wrap n (fun b hb hc => by
       have := List.all_eq_true.mp hd b hb; subst hc; simp [isDigit] at this)]
     simp
-  | none =>
-    simp only
+  | false =>
+    simp only [Bool.false_eq_true, if_false]
     unfold escapeIdent
     by_cases ht : (n.all inTail && !digitLedJunk n) = true
     · simp only [ht, if_true]
